@@ -14,9 +14,10 @@ GOOD = {
 }
 GOOD["same_pair_rgb_notation"] = ".n {\n  color: rgb(119, 119, 119);\n  background-color: white;\n}\n"
 GOOD_ORDER = list(GOOD)
-FAULTS = ["non_utf8", "directory", "dangling_link", "unserialisable", "empty", "stale_output", "fails_late_defines_t"]
+FAULTS = ["non_utf8", "directory", "dangling_link", "unserialisable", "empty", "stale_output", "fails_late_defines_t", "link_to_good", "good_in_odd_place"]
+LINKED = ".k {\n  color: var(--t, #888);\n  background-color: #fff;\n}\n"   # reached through a symlink / in a hidden, deeply nested file
 LATE = ":root {\n  --t: #222;\n}\n.v {\n  color: var(--t);\n}\n.u {\n  *zoom: 1;\n  color: #777;\n}\n"   # fails after its :root was indexed
-FAULT_POS = ["0.css", "b.css", "n.css", "sub/y.css"]
+FAULT_POS = ["0.css", "b.css", "n.css", "sub/y.css", "sub/deep/er/.hidden.css"]
 GOOD_POS = ["a.css", "m_cmyk.css", "sub/z_cm_v2.css"]   # '_cm' inside a stem does not make a file an output
 STALE = ("stale_cm.css", ".old {\n  color: #777;\n}\n")   # an output of some earlier run: never an input, never touched
 SETTINGS = (1, False, None)
@@ -37,6 +38,12 @@ def make_fault(w, rel, kind):
         open(p, "w").close()
     elif kind == "fails_late_defines_t":
         open(p, "w").write(LATE)
+    elif kind == "good_in_odd_place":
+        open(p, "w").write(LINKED)
+    elif kind == "link_to_good":
+        target = os.path.join(w.path, "linked-target.txt")   # not a .css name: only reachable through the link
+        open(target, "w").write(LINKED)
+        os.symlink(target, p)
     elif kind == "stale_output":
         q = os.path.join(os.path.dirname(p), STALE[0])
         open(q, "w").write(STALE[1])
@@ -133,6 +140,8 @@ def judge_tree(goods, faults, settings=SETTINGS, perm=None):
             expected[rel[:-4] + "_cm.css"] = solo_output(".u {\n  *zoom: 1;\n  color: #777;\n}\n", rel, settings)
         elif kind == "fails_late_defines_t":
             expected[rel[:-4] + "_cm.css"] = solo_output(LATE, rel, settings)
+        elif kind in ("link_to_good", "good_in_odd_place"):
+            expected[rel[:-4] + "_cm.css"] = solo_output(LINKED, rel, settings)
         else:
             expected[rel[:-4] + "_cm.css"] = None
     status, obs = forked(_batch_here, goods, faults, settings, perm)
@@ -230,6 +239,8 @@ def run(ctx):
     jobs = []
     for lay in layouts:
         for f in singles + doubles:
+            if ctx.quick and len(lay) == 3 and f and f[0][0] not in ("b.css", FAULT_POS[-1]):
+                continue   # quick tier: full layouts get faults between the files and in the nested hidden place only
             for st in settings_list:
                 jobs.append((lay, f, st, [None]))
     n = 0
@@ -244,8 +255,9 @@ def run(ctx):
     full = [lay for lay in layouts if len(lay) == 3]
     if ctx.quick:
         full = full[::4]
+    order_kinds = FAULTS if not ctx.quick else ["non_utf8", "unserialisable", "fails_late_defines_t", "directory"]
     for lay in full:
-        for kind in FAULTS:
+        for kind in order_kinds:
             nfiles = 4
             perms = list(itertools.permutations(range(nfiles)))
             pj.append((lay, [("b.css", kind)], SETTINGS, perms))
